@@ -119,6 +119,9 @@ struct Wire {
     established: bool,
     /// how the endpoint closed the transport after the raw peer ended the session (if it did)
     close_after_end: Option<String>,
+    /// server under test: STOP_SENDING codes with which two unacceptable requests were refused
+    /// (a GET; a CONNECT without :protocol) before the real request
+    refusals: Option<(Option<u64>, Option<u64>)>,
 }
 
 fn check_field_section(fs: &rc::FieldSection, what: &str) -> Result<(), (String, String)> {
@@ -150,6 +153,14 @@ fn check_wire(plan: &Plan, w: &Wire) -> Result<(), (String, String)> {
     let bad = |c: &str, d: String| Err((c.to_string(), d));
     // ---- error codes on the wire are registered values: a session ended by the peer's capsule
     // or FIN is answered with H3_NO_ERROR, never with the session's own 32-bit code
+    if let Some((get, no_protocol)) = &w.refusals {
+        if *get != Some(rc::H3_REQUEST_REJECTED) {
+            return bad("C16/refusal-code-value", format!("a GET request was refused with STOP_SENDING {get:x?}, the registered value of H3_REQUEST_REJECTED is {:#x}", rc::H3_REQUEST_REJECTED));
+        }
+        if *no_protocol != Some(rc::H3_MESSAGE_ERROR) {
+            return bad("C16/refusal-code-value", format!("a CONNECT request without :protocol was refused with STOP_SENDING {no_protocol:x?}, the registered value of H3_MESSAGE_ERROR is {:#x}", rc::H3_MESSAGE_ERROR));
+        }
+    }
     if let Some(c) = &w.close_after_end {
         if *c != format!("application:{:#x}", rc::H3_NO_ERROR) {
             return bad(
@@ -456,6 +467,24 @@ pub fn execute(plan: &Plan, trace: bool) -> Exec {
                 let _ = s.reset(0u32.into());
             }
             let _control = rp::open_control(&conn, &rc::default_peer_settings()).await?;
+            // two requests the endpoint must refuse, each on its own stream, with registered codes
+            let mut refusals = None;
+            if plan.burn == 0 && plan.seed % 3 == 0 {
+                let mut codes = Vec::new();
+                for fields in [
+                    vec![(":method".to_string(), "GET".to_string()), (":scheme".into(), "https".into()), (":authority".into(), "10.0.0.1:4433".into()), (":path".into(), "/".into())],
+                    rc::connect_request_fields("10.0.0.1:4433", "/c16").into_iter().filter(|(n, _)| n != ":protocol").collect(),
+                ] {
+                    let (mut s, _r) = conn.open_bi().await.map_err(|e| format!("{e:?}"))?;
+                    rp::write_all(&mut s, &rc::headers_frame(&fields, rc::EncStyle::PlainLiteral)).await?;
+                    let code = match tokio::time::timeout(Duration::from_secs(10), s.stopped()).await {
+                        Ok(Ok(Some(c))) => Some(c.into_inner()),
+                        _ => None,
+                    };
+                    codes.push(code);
+                }
+                refusals = Some((codes[0], codes[1]));
+            }
             let (mut rs, mut rr) = conn.open_bi().await.map_err(|e| format!("{e:?}"))?;
             let session_id = rp::sid(rs.id());
             rp::write_all(&mut rs, &rc::headers_frame(&rc::connect_request_fields("10.0.0.1:4433", "/c16"), rc::EncStyle::PlainLiteral)).await?;
@@ -466,7 +495,7 @@ pub fn execute(plan: &Plan, trace: bool) -> Exec {
             let established = sconn.is_some();
             let close_after_end = if established { end_session(plan.end_style, plan.end_code, &mut rs, &conn).await } else { None };
             drop(rep);
-            Ok::<_, String>(Wire { rec: recs, connect_bytes, session_id, expected_payloads: done, established, close_after_end })
+            Ok::<_, String>(Wire { rec: recs, connect_bytes, session_id, expected_payloads: done, established, close_after_end, refusals })
         } else {
             let (rep, _rs) = rp::raw_server_endpoint(&net, rp::RAW_SERVER_ADDR.parse().unwrap(), raw_transport(), r.seed32());
             let c = sut::sut_client(&net, &k, &mut r);
@@ -520,7 +549,7 @@ pub fn execute(plan: &Plan, trace: bool) -> Exec {
             let recs = std::mem::take(&mut *rec.0.lock().unwrap());
             let close_after_end = end_session(plan.end_style, plan.end_code, &mut rs, &conn).await;
             drop(rep);
-            Ok::<_, String>(Wire { rec: recs, connect_bytes, session_id, expected_payloads: done, established: true, close_after_end })
+            Ok::<_, String>(Wire { rec: recs, connect_bytes, session_id, expected_payloads: done, established: true, close_after_end, refusals: None })
         }
     });
     sut::finish_exec(&mut ex, &netslot, trace);
@@ -584,7 +613,7 @@ pub fn def() -> PropertyDef {
     PropertyDef {
         id: "C16",
         scenarios: vec![Box::new(Typed(C16Raw))],
-        rule: "Each run: the endpoint under test (server on even indexes, client on odd) talks to the scripted raw peer, which records every unidirectional stream, every bidirectional stream the endpoint opens, its half of the CONNECT stream and every datagram, and decodes them with the independent reference codec. Client under test: URL path / query / 0-8 additional headers from C02's generator. Server under test: every response variant (accept, accept_with_headers, 403, 404, 429) and session ids needing 1-, 2- (quick) and 4-byte (thorough) varints, obtained by burning stream ids. The application opens 0-6 uni / bidi streams with payloads of 0..1100 B and sends datagrams. Oracle: exactly one control stream, never closed, whose first frame is one SETTINGS (shortest-form varints, no reserved or duplicated ids, ENABLE_CONNECT_PROTOCOL = H3_DATAGRAM = ENABLE_WEBTRANSPORT = 1, QPACK table capacity and blocked streams 0) followed by nothing but GREASE; every other uni stream is 0x54 + the session id in shortest form + exactly the payload; every application bidi stream is 0x41 + session id + payload; every datagram is the shortest-form quarter stream id + payload; the CONNECT field section has Required Insert Count 0 / Base 0, only static or literal representations, valid Huffman, pseudo-headers first and lower-case names, and equals exactly the expected request (five pseudo-headers + additional fields) or response (:status of the decision + extras). Error codes on the wire are compared with registry constants under C12; here, in 40% of the runs the raw peer finally ends the session (close capsule with session codes such as 0x10a or 0xffffffff, or clean FIN) and the endpoint's CONNECTION_CLOSE must carry H3_NO_ERROR. Every run is non-trivial; distinct = distinct plan hashes.",
+        rule: "Each run: the endpoint under test (server on even indexes, client on odd) talks to the scripted raw peer, which records every unidirectional stream, every bidirectional stream the endpoint opens, its half of the CONNECT stream and every datagram, and decodes them with the independent reference codec. Client under test: URL path / query / 0-8 additional headers from C02's generator. Server under test: every response variant (accept, accept_with_headers, 403, 404, 429) and session ids needing 1-, 2- (quick) and 4-byte (thorough) varints, obtained by burning stream ids. The application opens 0-6 uni / bidi streams with payloads of 0..1100 B and sends datagrams. Oracle: exactly one control stream, never closed, whose first frame is one SETTINGS (shortest-form varints, no reserved or duplicated ids, ENABLE_CONNECT_PROTOCOL = H3_DATAGRAM = ENABLE_WEBTRANSPORT = 1, QPACK table capacity and blocked streams 0) followed by nothing but GREASE; every other uni stream is 0x54 + the session id in shortest form + exactly the payload; every application bidi stream is 0x41 + session id + payload; every datagram is the shortest-form quarter stream id + payload; the CONNECT field section has Required Insert Count 0 / Base 0, only static or literal representations, valid Huffman, pseudo-headers first and lower-case names, and equals exactly the expected request (five pseudo-headers + additional fields) or response (:status of the decision + extras). Error codes on the wire are compared with registry constants under C12; here, in 40% of the runs the raw peer finally ends the session (close capsule with session codes such as 0x10a or 0xffffffff, or clean FIN) and the endpoint's CONNECTION_CLOSE must carry H3_NO_ERROR; in a third of the server runs two unacceptable requests (a GET, a CONNECT without :protocol) precede the real one and must be refused with exactly H3_REQUEST_REJECTED (0x10b) and H3_MESSAGE_ERROR (0x10e). Every run is non-trivial; distinct = distinct plan hashes.",
         assumptions: vec![
             "the reference codec is validated against RFC 9000 / 7541 / 9204 worked examples at start-up; its Huffman code table (public data of RFC 7541 Appendix B) was extracted from the httlib-huffman crate's data file and checked to be a complete prefix code",
             "8-byte session ids are out of reach in situ; current-thread runtime; fault-free network",
